@@ -16,7 +16,7 @@ for log in sys.argv[1:]:
             continue
         if cur and "PATCH DOES NOT APPLY" in line:
             results.setdefault(cur, {})["(patch)"] = "does not apply"
-        m = re.match(r"(C\d\d|RPC|E2E|MON) (?:quick|thorough): .*violations=(\d+)", line)
+        m = re.match(r"(C\d\d|RPC|E2E|MON|QRY) (?:quick|thorough): .*violations=(\d+)", line)
         if m and cur:
             results.setdefault(cur, {})[m.group(1)] = int(m.group(2))
 json.dump(results, open(rp, "w"), indent=1, sort_keys=True)
